@@ -132,7 +132,34 @@ def run(ctx, rep):
                       if how in ('refmut', 'write') and not fn.derived})
     rep.check(writers == ['libcnb::layer_env::LayerEnvDelta::insert'], 'R4', 'single-writer', '%s:%d' % (d['file'], d['line']),
               'LayerEnvDelta::insert is the only writer of entries', 'entries are mutated by %s' % writers)
-    # ---- R5 ----------------------------------------------------------------------------------------
+    arm_rules(ctx, rep)
+
+
+class _ArmFilter:
+    """forwards only the instances whose subject names one of the wanted arms"""
+
+    def __init__(self, rep, only):
+        self._rep, self._only = rep, only
+
+    def _want(self, subject):
+        return any(subject.endswith('/' + a) or ('/' + a + '/') in subject for a in self._only)
+
+    def check(self, cond, rule, subject, *a, **k):
+        return self._rep.check(cond, rule, subject, *a, **k) if self._want(subject) else cond
+
+    def unproven(self, rule, subject, *a, **k):
+        if self._want(subject):
+            self._rep.unproven(rule, subject, *a, **k)
+
+    def __getattr__(self, n):
+        return getattr(self._rep, n)
+
+
+def arm_rules(ctx, rep, rule='R5', only=None):
+    """per-behaviour arm shapes of LayerEnvDelta::apply (shared with C10 for the Prepend / Delimiter arms)"""
+    prog, sl = ctx.prog, ctx.slicer
+    if only is not None:
+        rep = _ArmFilter(rep, only)
     g = prog.fn(L.DAPPLY)
     rep.analysed(g)
     gw = '%s:%d' % (g.file, g.line)
@@ -144,12 +171,12 @@ def run(ctx, rep):
         conds = conditions(g, c.bb, sl)
         var = [cd for cd in conds if cd.kind == 'variant' and cd.enum == L.MB]
         if not var or len(var[-1].outcome) != 1:
-            rep.unproven('R5', 'unclassified/' + c.name, c.where(), 'mutation outside a behaviour arm')
+            rep.unproven(rule, 'unclassified/' + c.name, c.where(), 'mutation outside a behaviour arm')
             continue
         arm = next(iter(var[-1].outcome))
         bs = sym(g, var[-1].subject)
         if bs != 'BEHAVIOUR':
-            rep.unproven('R5', arm + '/dispatch', c.where(), 'arm is selected on %s, not on the entry\'s behaviour' % bs)
+            rep.unproven(rule, arm + '/dispatch', c.where(), 'arm is selected on %s, not on the entry\'s behaviour' % bs)
         guards = []
         for cd in conds:
             if cd.kind == 'bool' and cd.value[0] == 'call':
@@ -193,8 +220,37 @@ def run(ctx, rep):
     }
     for arm, w in want.items():
         got = concat.get(arm)
-        rep.check(got in w, 'R5', 'shape/' + arm, gw, '%s: %s' % (arm, w[0]), '%s arm computes %s, the CNB rule is %s' % (arm, got, w[0]))
-    rep.check('Delimiter' not in shapes, 'R5', 'shape/Delimiter', gw, 'Delimiter entries change no variable',
+        rep.check(got in w, rule, 'shape/' + arm, gw, '%s: %s' % (arm, w[0]), '%s arm computes %s, the CNB rule is %s' % (arm, got, w[0]))
+    # the insert of an arm happens on EVERY path through the arm (an early `continue` under a compound condition is
+    # not visible as a dominating guard): from the arm's entry no path reaches the next iteration without the insert,
+    # except — for Default — the `contains_key == true` edge
+    from .lib.guards import always_through
+    from .lib.effects import find_loops
+    loops = [L_ for L_ in find_loops(g, sl)]
+    for arm in ('Override', 'Default', 'Append', 'Prepend'):
+        ins = [c for c in g.calls if c.name == 'libcnb::env::Env::insert' and
+               any(cd.kind == 'variant' and cd.enum == L.MB and cd.outcome == frozenset({arm}) for cd in conditions(g, c.bb, sl))]
+        if len(ins) != 1 or not loops:
+            continue
+        c = ins[0]
+        armc = [cd for cd in conditions(g, c.bb, sl) if cd.kind == 'variant' and cd.enum == L.MB][-1]
+        loop = [L_ for L_ in loops if c.bb in L_.body]
+        if not loop:
+            rep.unproven(rule, 'always/' + arm, c.where(), 'insert is not inside the entry loop')
+            continue
+        skip = []
+        if arm == 'Default':
+            for cd in conditions(g, c.bb, sl):
+                if cd.kind == 'bool' and cd.value[0] == 'call' and cd.value[1].endswith('contains_key'):
+                    t = g.blocks[cd.sw_bb]['t']
+                    for tb in set([b for _, b in t['targets']] + [t['else']]):
+                        if tb != cd.target:
+                            skip.append((cd.sw_bb, tb))
+        ends = [loop[0].header] + list(loop[0].exit_bb) + g.return_blocks()
+        ok = always_through(g, armc.target, c.bb, ends, skip)
+        rep.check(ok, rule, 'always/' + arm, c.where(), '%s: the variable is updated on every path through the arm' % arm,
+                  '%s entries can be skipped: some path through the arm reaches the next entry without the insert (e.g. an early `continue`)' % arm)
+    rep.check('Delimiter' not in shapes, rule, 'shape/Delimiter', gw, 'Delimiter entries change no variable',
               'Delimiter arm mutates the environment: %s' % shapes.get('Delimiter'))
     # delimiter lookup
     df = prog.fn('libcnb::layer_env::LayerEnvDelta::delimiter_for')
@@ -207,5 +263,5 @@ def run(ctx, rep):
             kv = strip(gv[2][1])
             good = (kv[0] == 'tuple' and strip(kv[1][0])[0] == 'agg' and strip(kv[1][0])[2] == 'Delimiter'
                     and strip(kv[1][1])[0] == 'param' and strip(kv[1][1])[2] == 1)
-    rep.check(good, 'R5', 'delimiter-lookup', '%s:%d' % (df.file, df.line), 'delimiter = entries[(Delimiter, name)] or empty',
+    rep.check(good, rule, 'delimiter-lookup', '%s:%d' % (df.file, df.line), 'delimiter = entries[(Delimiter, name)] or empty',
               'delimiter lookup is not entries[(Delimiter, name)].unwrap_or_default(): ' + vstr(rv)[:140])
